@@ -56,6 +56,33 @@ theorem tuning_setters_defined (ge1 : Bool) (k : ℤ) (henv : TruncClampEnv ge1 
 example : TruncClampEnv true (10 ^ 18) ∧ TruncClampEnv false (2 ^ 1100) := by
   constructor <;> intro h <;> simp_all
 
+/-- `P2_OpenMP`'s closed form `(a - 2) * (a + 1) / 2 - (b - 2) * (b + 1) / 2` (a = π(y), b = π(√x)) computed in the type `T`
+    of `x` (repaired, finding F9): in the 128-bit instantiation every intermediate fits for all 64-bit a, b … -/
+theorem p2_closed_form_no_overflow_wide (a b : ℤ) (ha : 0 ≤ a ∧ a < 2 ^ 63) (hb : 0 ≤ b ∧ b < 2 ^ 63) :
+    -(2 : ℤ) ^ 127 ≤ (a - 2) * (a + 1) ∧ (a - 2) * (a + 1) < 2 ^ 127 ∧
+    -(2 : ℤ) ^ 127 ≤ (b - 2) * (b + 1) ∧ (b - 2) * (b + 1) < 2 ^ 127 ∧
+    -(2 : ℤ) ^ 127 ≤ (a - 2) * (a + 1) / 2 - (b - 2) * (b + 1) / 2 ∧
+    (a - 2) * (a + 1) / 2 - (b - 2) * (b + 1) / 2 < 2 ^ 127 := by
+  obtain ⟨ha0, ha1⟩ := ha
+  obtain ⟨hb0, hb1⟩ := hb
+  have h1 : (a - 2) * (a + 1) < 2 ^ 126 := by nlinarith
+  have h2 : -(2 : ℤ) ^ 64 ≤ (a - 2) * (a + 1) := by nlinarith
+  have h3 : (b - 2) * (b + 1) < 2 ^ 126 := by nlinarith
+  have h4 : -(2 : ℤ) ^ 64 ≤ (b - 2) * (b + 1) := by nlinarith
+  refine ⟨by omega, by omega, by omega, by omega, by omega, by omega⟩
+
+/-- … and in the 64-bit instantiation for every a, b ≤ π(3037000499) (x < 2^63 gives √x ≤ 3037000499) -/
+theorem p2_closed_form_no_overflow_narrow (a b : ℤ) (ha : 0 ≤ a ∧ a ≤ 3037000499) (hb : 0 ≤ b ∧ b ≤ 3037000499) :
+    -(2 : ℤ) ^ 63 ≤ (a - 2) * (a + 1) ∧ (a - 2) * (a + 1) < 2 ^ 63 ∧
+    -(2 : ℤ) ^ 63 ≤ (b - 2) * (b + 1) ∧ (b - 2) * (b + 1) < 2 ^ 63 := by
+  obtain ⟨ha0, ha1⟩ := ha
+  obtain ⟨hb0, hb1⟩ := hb
+  refine ⟨by nlinarith, by nlinarith, by nlinarith, by nlinarith⟩
+
+-- finding F9: the unrepaired code multiplied in int64_t also for T = int128_t; with a = π(99999915461) = 4118051491
+-- (reached by `primecount 1e22 --P2 --alpha=4000`) the product leaves int64
+example : ¬ ((4118051491 - 2 : ℤ) * (4118051491 + 1) < 2 ^ 63) := by decide
+
 /-! ### the source's declared preconditions -/
 
 /-- number of `ASSERT` sites per file -/
@@ -86,6 +113,8 @@ example : isqrtIntermediatesOk .i128 (2 ^ 126 + 1) (2 ^ 63) = true :=
 end Pc.C16
 
 #print axioms Pc.C16.tuning_setters_defined
+#print axioms Pc.C16.p2_closed_form_no_overflow_wide
+#print axioms Pc.C16.p2_closed_form_no_overflow_narrow
 #print axioms Pc.C16.isqrt_no_overflow
 #print axioms Pc.C16.calculator_total
 #print axioms Pc.C16.c_buffer_in_bounds
